@@ -381,17 +381,38 @@ def check_datagram(data: bytes, count_calls: bool = True) -> Tuple[Optional[str]
                 for nm in _names_of(e):
                     if len(nm) > 253:
                         return f"valid message with a {len(nm)}-character name", "long-name", counter.n
+    problem, oc = faithful(msg, data)
+    return problem, oc, counter.n
+
+
+def faithful(msg: Any, data: bytes) -> Tuple[Optional[str], str]:
+    """The last clause of C02 for an already decoded message object: equal to the strict parser's reading of `data`."""
     try:
         ref = wire.strict_decode(data)
     except wire.Reject:
-        return None, ("lib-valid" if msg.valid else "lib-invalid") + "/strict-reject", counter.n
+        return None, ("lib-valid" if msg.valid else "lib-invalid") + "/strict-reject"
     if not ref.all_supported():
-        return None, "strict-accept/unsupported-type", counter.n
+        return None, "strict-accept/unsupported-type"
     if not msg.valid:
-        return "strict RFC 1035 parser accepts the datagram, the library marks it invalid", "mismatch", counter.n
+        return "strict RFC 1035 parser accepts the datagram, the library marks it invalid", "mismatch"
+    secs = incoming_sections(msg)
     want = [[text_norm(e) for e in s] for s in (ref.questions, ref.answers, ref.authorities, ref.additionals)]
     got = [[text_norm(e) for e in s] for s in secs]
     if got != want:
-        return f"strict parser reads {want}, library reads {got}", "mismatch", counter.n
+        return f"strict parser reads {want}, library reads {got}", "mismatch"
     n = sum(len(s) for s in want)
-    return None, f"agree:{min(n, 3)}", counter.n
+    return None, f"agree:{min(n, 3)}"
+
+
+def in_flight_set() -> List[bytes]:
+    """Valid datagrams that share offsets but not names (a name at offset 12 that later records point to), for the
+    'two datagrams in flight' phase."""
+    out = list(seeds())
+    for typ, inst in (("_printer._tcp.local.", "Office"), ("_scanner._tcp.local.", "Office"), ("_ipp._tcp.local.", "Lab")):
+        full = f"{inst}.{typ}"
+        out.append(wire.query([("Q", typ, 12, 1)], answers=[("PTR", typ, 1, 4500, full)], tc=True))
+        out.append(wire.query([("Q", typ, 12, 1), ("Q", full, 33, 1)], answers=[("PTR", typ, 1, 4500, full)]))
+        out.append(wire.response([("PTR", typ, 1, 4500, full), ("SRV", full, 0x8001, 120, 0, 0, 80, f"{inst}.local."),
+                                  ("A", f"{inst}.local.", 0x8001, 120, b"\x0a\x00\x00\x07")]))
+        out.append(wire.encode(0, 0x8400, [("Q", typ, 12, 1)], [("PTR", typ, 1, 4500, full)]))
+    return out
